@@ -593,6 +593,8 @@ type c20CaseResult struct {
 	failing  int
 	scraped  bool
 	key      string
+	// a second Metrics was refused by the registry that already holds one (nothing more to judge)
+	secondRefused bool
 }
 
 func c20RunCase(sp c20Spec) (res c20CaseResult) {
@@ -737,6 +739,38 @@ func c20RunCase(sp c20Spec) (res c20CaseResult) {
 	}
 	snap := c20FromDTO(mfs)
 	res.viols, res.st = c20Judge(sp, "gather", ref, snap)
+
+	if sp.Goroutines <= 1 && sp.Seed%3 == 0 && len(res.viols) == 0 {
+		// a second Metrics on the same registry: Register may refuse it (the collectors' names are
+		// taken), but if it reports success what the second instance observes is exported as well
+		var err2 error
+		func() {
+			defer func() { pan = recover() }()
+			pm2 := prom.NewMetrics()
+			if err2 = pm2.Register(reg); err2 == nil {
+				for i := range rs {
+					pm2.Observe(&rs[i])
+				}
+			}
+		}()
+		switch {
+		case pan != nil:
+			fail("register/panic", "a second NewMetrics/Register/Observe on the same registry panicked: %v", pan)
+		case err2 != nil:
+			res.secondRefused = true
+		default:
+			if mfs2, err := reg.Gather(); err != nil {
+				fail("gather/error", "Gather failed after a second instance had registered: %v", err)
+			} else {
+				both := append(append([]vegeta.Result{}, rs...), rs...)
+				v2, _ := c20Judge(sp, "gather after a second Metrics registered on the same registry without an error and observed the same results again", c20Reference(both), c20FromDTO(mfs2))
+				for i := range v2 {
+					v2[i].Sig = strings.Replace(v2[i].Sig, "C20/", "C20/second-instance-accepted-but-not-exported/", 1)
+				}
+				res.viols = append(res.viols, v2...)
+			}
+		}
+	}
 
 	if sp.Goroutines <= 1 || sp.Scraper {
 		var body string
@@ -997,6 +1031,11 @@ func runC20(c *Ctx) int {
 
 	c17Parallel(len(specs), 8, func(i int) { outs[i] = c20RunCase(specs[i]) })
 	samples := 0
+	for i := range outs {
+		if outs[i].secondRefused {
+			run.Count("second_instances_refused_by_the_registry", 1)
+		}
+	}
 	for i := range outs {
 		o, sp := &outs[i], specs[i]
 		run.Eval(1)
